@@ -232,13 +232,29 @@ def run_grids(io, spec):
                 # history: save a different grid under the same names, then read again (a reader-side cache keyed by path would be stale)
                 b2 = rng.choice([x for x in bs if x != b])
                 write_and_read(io, (b2, o, t, f, cart), sub)
+            if it % 3 == 1:
+                # the same history with a grid of the SAME shape (equal file sizes): another factor, radii moved, the sibling algorithm of equal N
+                twins = [(b, o, t, 1.5 * f, cart)]
+                if t.startswith("["):
+                    vals = t.strip("[]").split(",")
+                    twins.append((b, o, "[" + ",".join(vals[:-1] + [" " + repr(round(float(vals[-1]) + 0.05, 6))]) + "]", f, cart))
+                sib = {"randomQ_6": "cube4D_6", "cube4D_9": "randomQ_9", "8": "randomQ_8", "5": "randomQ_5"}.get(b)
+                if sib:
+                    twins.append((sib, o, t, f, cart))
+                sibo = {"cube3D_8": "randomS_8", "randomS_9": "ico_9", "ico_13": "cube3D_13", "12": "randomS_12", "7": "cube3D_7"}.get(o)
+                if sibo:
+                    twins.append((b, sibo, t, f, cart))
+                write_and_read(io, rng.choice(twins), sub)
+                write_and_read(io, (b, o, t, f, cart), sub)
     finally:
         shutil.rmtree(d, ignore_errors=True)
 
 
 LEGEND_WORDS = ["Coul-SR:SOL_ION-SOL_ION", "Coul-SR:SOL_ION-SOL", "Coul-SR", "Pot", "Potential", "LJ (SR)", "Coulomb (SR)", "Disper. corr.", "Pres. DC (bar)", "Coul. SR @ 1.2 nm", "Kinetic En.",
                 "s10 legend", "legend s1", "# of contacts", "E[kJ/mol]", "a,b", "Total Energy", "T-rest", "Box-X", " padded ",
-                "x" * 40, "s9", "Time"]
+                "x" * 40, "s9", "Time",
+                # xmgrace escapes: font switches, a literal backslash (written as two), a legend ending in one
+                "Temp\\S-1\\N", "a\\\\b", "C:\\\\", "trailing\\", "\\xm\\f{} (nm)"]
 
 
 def fmt_value(rng, v, style):
